@@ -5,3 +5,6 @@ import GolibsVerif.Model.C15
 import GolibsVerif.Theorems.C15
 import GolibsVerif.Model.NetAddr
 import GolibsVerif.Theorems.C03
+import GolibsVerif.Go.Netip
+import GolibsVerif.Model.NetIP
+import GolibsVerif.Theorems.C02
